@@ -29,7 +29,27 @@ def ensure_installed():
         _installed[0] = True
 
 
-VALUES = [0, 1, None, '', 'x', [], [1], {}, {'a': 1}, (), 0.0, False, 'a longer string value', list(range(8))]
+VALUES = [0, 1, None, '', 'x', [], [1], {}, {'a': 1}, (), 0.0, False, 'a longer string value', list(range(8)), 1000, 2.5, (1, 2), 10 ** 20]
+
+
+def fresh(v):
+    """an equal but distinct object where the type allows one (the selection rule is about ==, never about identity)"""
+    if isinstance(v, bool) or v is None:
+        return v
+    if isinstance(v, int):
+        return int(str(v))
+    if isinstance(v, float):
+        return float(repr(v))
+    if isinstance(v, str):
+        return ''.join(list(v))
+    if isinstance(v, tuple):
+        return tuple(list(v))
+    if isinstance(v, list):
+        return list(v)
+    if isinstance(v, dict):
+        return dict(v)
+    return v
+
 FACTORIES = [list, dict, set, lambda: [1]]
 NAMES = ['a', 'b', 'ctx', 'fn', 'value', 'items', 'z9']
 
@@ -47,7 +67,7 @@ def gen_class(rng, idx):
             fields.append((nm, 'none', None, None, True))      # a required field hidden from the repr could never be rebuilt
         elif r < 0.75:
             seen_default = True
-            fields.append((nm, 'default', rng.choice(VALUES[:7] + [0.0, False]), None, rng.random() < 0.85))
+            fields.append((nm, 'default', rng.choice(VALUES[:5] + [(), 0.0, False, 1000, 2.5, (1, 2), 10 ** 20, 'a longer string value']), None, rng.random() < 0.85))
         else:
             seen_default = True
             fields.append((nm, 'factory', None, rng.randrange(len(FACTORIES)), rng.random() < 0.85))
@@ -102,10 +122,12 @@ def gen_instance(rng, desc):
             vals[nm] = rng.choice(VALUES)
         elif not rp:
             continue
-        elif rng.random() < 0.5:
+        elif rng.random() < 0.35:
             continue               # leave at the default
+        elif how == 'default' and rng.random() < 0.3:
+            vals[nm] = fresh(default)          # equal to the default, but another object
         else:
-            vals[nm] = rng.choice(VALUES)
+            vals[nm] = fresh(rng.choice(VALUES))
     return vals
 
 
@@ -204,6 +226,17 @@ def extras_chunk(args):
                                 break
                             if got != top:
                                 bad = 'evaluates to a different instance: %r vs %r' % (got, top)
+                                break
+                            # exactly the prescribed fields, in declaration order (evaluation alone cannot see a field that is printed
+                            # although it equals its default)
+                            import ast as _ast
+                            node = _ast.parse('(' + text + '\n)', mode='eval').body
+                            if wrap == 1:
+                                node = node.elts[0]
+                            shown = [k.arg for k in node.keywords] if isinstance(node, _ast.Call) else None
+                            want = [k for k, _ in call.kwargs]
+                            if shown != want or (isinstance(node, _ast.Call) and node.args):
+                                bad = 'printed fields %r, prescribed (repr enabled, no default or value != default, declaration order) %r: %s' % (shown, want, text[:200])
                                 break
                     if bad:
                         fails.append({'kind': 'extras-field-selection', 'why': bad, 'class': desc, 'instance_kwargs': repr(kw)})
